@@ -654,9 +654,10 @@ class WorkTree:
             c.parents = list(merge_heads)
         else:
             try:
-                old_head = self._repo.refs[ref]
+                old_head: ObjectID | None = self._repo.refs[ref]
                 c.parents = [old_head, *merge_heads]
             except KeyError:
+                old_head = None
                 c.parents = list(merge_heads)
 
         # Handle message after parents are set
@@ -726,7 +727,11 @@ class WorkTree:
             self._repo.object_store.add_object(c)
         else:
             try:
-                old_head = self._repo.refs[ref]
+                # Compare-and-swap against the head the parents were taken
+                # from; re-reading the ref here would silently drop a commit
+                # that landed in between.
+                if old_head is None:
+                    raise KeyError(ref)
                 if should_sign:
                     from dulwich.signature import get_signature_vendor
 
